@@ -5,13 +5,21 @@
 //	C <kind> <a> <b> <x>      contains
 //	E 0 <kind> <a> <b> <n>    elements via IteratorNext (all for finite kinds, first n for endless)
 //	A 0 <kind> <a> <b> <n>    elements via IteratorAll (range-over-func)
+//
+// A finite range a..b can yield at most max(0, b-a)+1 elements: an iterator that yields more
+// than that (+ a margin) is cut off and reported as "<list>!nostop", i.e. a non-terminating
+// iterator shows as a concrete wrong element list instead of a hang. A watchdog goroutine
+// kills the process when a single case runs for more than 60 s.
 package main
 
 import (
 	"fmt"
 	"iter"
 	"math/big"
+	"os"
 	"strings"
+	"sync/atomic"
+	"time"
 
 	"verifharness/hx"
 
@@ -111,6 +119,50 @@ func finite(kind string) bool {
 
 func list(xs []string) string { return "[" + strings.Join(xs, ", ") + "]" }
 
+// the largest number of elements a finite range a..b of any kind can have, plus a margin of 3
+func capFor(a, b string) int {
+	x, ok1 := new(big.Int).SetString(a, 10)
+	y, ok2 := new(big.Int).SetString(b, 10)
+	if !ok1 || !ok2 {
+		return limit
+	}
+	d := new(big.Int).Sub(y, x)
+	if d.Sign() < 0 {
+		return 4
+	}
+	if !d.IsInt64() || d.Int64() > limit-4 {
+		return limit
+	}
+	return int(d.Int64()) + 4
+}
+
+// watchdog: current case (for the message) and the time it started
+var curCase atomic.Value
+var curStart atomic.Int64
+
+func watchdog() {
+	for {
+		time.Sleep(2 * time.Second)
+		st := curStart.Load()
+		if st != 0 && time.Now().UnixNano()-st > int64(60*time.Second) {
+			// the stuck case becomes a concrete failing input (the main goroutine is inside it, not writing)
+			c, _ := curCase.Load().([2]string)
+			hx.Emit(c[0], c[1], "hang>60s")
+			hx.Flush()
+			fmt.Fprintf(os.Stderr, "c23 harness watchdog: case %v did not finish within 60s\n", c)
+			os.Exit(3)
+		}
+	}
+}
+
+func timed(id, input string) string {
+	curCase.Store([2]string{id, input})
+	curStart.Store(time.Now().UnixNano())
+	r := run(input)
+	curStart.Store(0)
+	return r
+}
+
 func run(input string) string {
 	f := strings.Fields(input)
 	z := func(s string) value.Value {
@@ -137,12 +189,16 @@ func run(input string) string {
 			var n int
 			fmt.Sscan(f[5], &n)
 			var xs []string
+			most := capFor(f[3], f[4])
 			for i := 0; ; i++ {
 				if !finite(kind) && i >= n {
 					return list(xs)
 				}
-				if i > limit {
-					return "nofuel"
+				if finite(kind) && i >= most {
+					if most >= limit {
+						return "nofuel"
+					}
+					return list(xs) + "!nostop"
 				}
 				v, err := next()
 				if !err.IsUndefined() {
@@ -164,6 +220,7 @@ func run(input string) string {
 			var xs []string
 			res := ""
 			i := 0
+			most := capFor(f[3], f[4])
 			for v, err := range seq {
 				if !err.IsUndefined() {
 					res = "!yielded-error:" + err.Inspect()
@@ -172,8 +229,12 @@ func run(input string) string {
 				if !finite(kind) && i >= n {
 					break
 				}
-				if i > limit {
-					return "nofuel"
+				if finite(kind) && i >= most {
+					if most >= limit {
+						return "nofuel"
+					}
+					res = "!nostop"
+					break
 				}
 				xs = append(xs, show(v))
 				i++
@@ -184,33 +245,130 @@ func run(input string) string {
 	})
 }
 
+// the SmallInt/BigInt representation boundaries (value.MinSmallInt/MaxSmallInt = -2^63 / 2^63-1)
+// and their neighbours, +-2^63, +-2^64, +-(2^64-1), +-2^32, 0
+func anchors() []*big.Int {
+	p := func(e uint) *big.Int { return new(big.Int).Lsh(big.NewInt(1), e) }
+	add := func(z *big.Int, d int64) *big.Int { return new(big.Int).Add(z, big.NewInt(d)) }
+	neg := func(z *big.Int) *big.Int { return new(big.Int).Neg(z) }
+	maxS, minS := big.NewInt(int64(value.MaxSmallInt)), big.NewInt(int64(value.MinSmallInt))
+	return []*big.Int{
+		maxS, add(maxS, -1), add(maxS, 1), add(maxS, 2),
+		minS, add(minS, 1), add(minS, -1), add(minS, -2),
+		p(63), neg(p(63)), p(64), neg(p(64)), add(p(64), -1), neg(add(p(64), -1)), add(p(64), 1),
+		p(32), neg(p(32)), add(p(31), -1), neg(p(31)), big.NewInt(0),
+	}
+}
+
+// a range whose START or END (or, for the exclusive kinds, first/last ELEMENT) sits exactly on an anchor
+func anchored(r *hx.Rng, anch []*big.Int, kind string) (a, b *big.Int) {
+	z := new(big.Int).Set(hx.Pick(r, anch))
+	d := int64(r.Range(-2, 8))
+	switch r.Below(4) {
+	case 0: // start on the anchor
+		a = z
+		b = new(big.Int).Add(a, big.NewInt(d))
+	case 1: // end on the anchor
+		b = z
+		a = new(big.Int).Sub(b, big.NewInt(d))
+	case 2: // last element on the anchor: the end is one further for the kinds that exclude it
+		b = z
+		if kind == "open" || kind == "ropen" {
+			b = new(big.Int).Add(z, big.NewInt(1))
+		}
+		a = new(big.Int).Sub(b, big.NewInt(d))
+	default: // first element on the anchor
+		a = z
+		if kind == "open" || kind == "lopen" || kind == "eopen" {
+			a = new(big.Int).Sub(z, big.NewInt(1))
+		}
+		b = new(big.Int).Add(a, big.NewInt(d))
+	}
+	return a, b
+}
+
 func main() {
 	o := hx.ParseFlags()
 	defer hx.Flush()
+	go watchdog()
 	for i, in := range hx.ReadInputs(o.Input) {
-		hx.Emit(fmt.Sprintf("c%d", i), in, run(in))
+		id := fmt.Sprintf("c%d", i)
+		hx.Emit(id, in, timed(id, in))
 	}
 	r := hx.NewRng(o.Seed)
 	kinds := []string{"closed", "open", "lopen", "ropen", "eclosed", "eopen", "bclosed", "bopen"}
-	for i := 0; i < o.N; i++ {
-		var a *big.Int
-		switch r.Below(3) {
-		case 0:
-			a = big.NewInt(int64(r.Range(-4, 4)))
-		case 1:
-			a = r.BoundaryInt()
-		default:
-			a = r.BigBits(r.Range(1, 100))
+	iterKinds := kinds[:6]
+	anch := anchors()
+	emit := func(i int, in string) {
+		id := fmt.Sprintf("g%d", i)
+		hx.Emit(id, in, timed(id, in))
+	}
+	i := 0
+	// systematic part (at most half of the budget; complete from -n 5760): every
+	// iterable kind x every anchor x start-on-anchor / end-on-anchor x widths 0..3, through
+	// IteratorNext (E) and IteratorAll (A); contains at the anchor and both neighbours
+	type sys struct {
+		kind string
+		z    *big.Int
+		end  bool
+		d    int64
+	}
+	var grid []sys
+	for _, d := range []int64{0, 2, 1, 3} {
+		for _, z := range anch {
+			for _, kind := range iterKinds {
+				for _, end := range []bool{true, false} {
+					if d == 0 && !end {
+						continue // same range as the end variant
+					}
+					grid = append(grid, sys{kind, z, end, d})
+				}
+			}
 		}
-		d := int64(r.Range(-3, 12))
-		b := new(big.Int).Add(a, big.NewInt(d))
+	}
+	budget := o.N / 2
+	for gi := 0; gi < len(grid) && 3*gi < budget; gi++ {
+		g := grid[gi]
+		a, b := g.z, new(big.Int).Add(g.z, big.NewInt(g.d))
+		if g.end {
+			a, b = new(big.Int).Sub(g.z, big.NewInt(g.d)), g.z
+		}
+		emit(i, fmt.Sprintf("E 0 %s %s %s %d", g.kind, a, b, 4))
+		emit(i+1, fmt.Sprintf("A 0 %s %s %s %d", g.kind, a, b, 4))
+		x := new(big.Int).Add(g.z, big.NewInt(int64(gi%3)-1))
+		emit(i+2, fmt.Sprintf("C %s %s %s %s", g.kind, a, b, x))
+		i += 3
+	}
+	for ; i < o.N; i++ {
 		kind := hx.Pick(r, kinds)
+		var a, b *big.Int
+		if r.Chance(1, 3) {
+			a, b = anchored(r, anch, kind)
+		} else {
+			switch r.Below(3) {
+			case 0:
+				a = big.NewInt(int64(r.Range(-4, 4)))
+			case 1:
+				a = r.BoundaryInt()
+			default:
+				a = r.BigBits(r.Range(1, 100))
+			}
+			d := int64(r.Range(-3, 12))
+			b = new(big.Int).Add(a, big.NewInt(d))
+		}
 		var in string
 		switch r.Below(4) {
 		case 0, 1:
-			x := new(big.Int).Add(a, big.NewInt(int64(r.Range(-3, 15))))
-			if r.Chance(1, 8) {
+			var x *big.Int
+			switch r.Below(8) {
+			case 0:
 				x = r.BoundaryInt()
+			case 1:
+				x = new(big.Int).Add(hx.Pick(r, anch), big.NewInt(int64(r.Range(-1, 1))))
+			case 2, 3:
+				x = new(big.Int).Add(b, big.NewInt(int64(r.Range(-2, 2))))
+			default:
+				x = new(big.Int).Add(a, big.NewInt(int64(r.Range(-3, 15))))
 			}
 			in = fmt.Sprintf("C %s %s %s %s", kind, a, b, x)
 		case 2:
@@ -218,6 +376,6 @@ func main() {
 		default:
 			in = fmt.Sprintf("A 0 %s %s %s %d", kind, a, b, r.Range(0, 9))
 		}
-		hx.Emit(fmt.Sprintf("g%d", i), in, run(in))
+		emit(i, in)
 	}
 }
